@@ -50,6 +50,8 @@ type Pkg struct {
 	Name    string   `json:"name"`
 	Types   []Type   `json:"types,omitempty"`
 	Imports []string `json:"imports,omitempty"` // dirs of packages of this module it imports
+	// XImports: full import paths of packages of OTHER on-disk modules (Module.Ext) it imports
+	XImports []string `json:"ximports,omitempty"`
 	// DocTags: generator names g for which the package's file doc (doc.go) carries "+gengo:<g>", i.e. the generator is
 	// enabled for every type of THIS package.
 	DocTags []string `json:"doc_tags,omitempty"`
@@ -69,6 +71,9 @@ type Module struct {
 	SumFor  []string `json:"sum_for,omitempty"`
 	SumJunk string   `json:"sum_junk,omitempty"`
 	HasSum  bool     `json:"has_sum,omitempty"`
+	// Ext: further modules on disk (own go.mod) which this module requires and reaches through `replace => <dir>`
+	// (multimod.go).  Their files are part of the snapshotted tree (paths relative to THIS module's root).
+	Ext []ExtMod `json:"ext,omitempty"`
 }
 
 func (m *Module) PkgPath(dir string) string {
@@ -84,8 +89,14 @@ func (m *Module) source(p Pkg) string {
 	for _, im := range p.Imports {
 		fmt.Fprintf(&b, "\nimport %s %q\n", "i"+strings.ReplaceAll(im, "/", "_"), m.PkgPath(im))
 	}
+	for i, im := range p.XImports {
+		fmt.Fprintf(&b, "\nimport x%d %q\n", i, im)
+	}
 	for _, im := range p.Imports {
 		fmt.Fprintf(&b, "\nvar _ = %s.Anchor\n", "i"+strings.ReplaceAll(im, "/", "_"))
+	}
+	for i := range p.XImports {
+		fmt.Fprintf(&b, "\nvar _ = x%d.Anchor\n", i)
 	}
 	b.WriteString("\nconst Anchor = 0\n")
 	for _, t := range p.Types {
@@ -118,8 +129,14 @@ func (m *Module) Materialise(root string) error {
 	if gv == "" {
 		gv = "1.22"
 	}
-	if err := write("go.mod", fmt.Sprintf("module %s\n\ngo %s\n", m.ModPath, gv)); err != nil {
+	if err := write("go.mod", fmt.Sprintf("module %s\n\ngo %s\n", m.ModPath, gv)+m.requireBlock()); err != nil {
 		return err
+	}
+	for _, x := range m.Ext {
+		sub := Module{ModPath: x.ModPath, GoVer: x.GoVer, Pkgs: x.Pkgs, Files: x.Files}
+		if err := sub.Materialise(filepath.Join(root, filepath.FromSlash(x.Dir))); err != nil {
+			return err
+		}
 	}
 	for _, p := range m.Pkgs {
 		base := filepath.Base(p.Dir)
@@ -239,6 +256,10 @@ type WPkg struct {
 	Files  []string `json:"files"`
 	Types  []WType  `json:"types"`
 	Hash   string   `json:"hash"`
+	// the module the loader reports for this package (one run may span several modules: the reference formatter takes the
+	// language version and the module path of the module the FILE lies in)
+	ModPath string `json:"modpath,omitempty"`
+	GoVer   string `json:"gover,omitempty"`
 }
 type World struct {
 	ModRoot string `json:"modroot"`
@@ -549,12 +570,25 @@ func LoadWorld(dir string, entry []string, gens []string) (*World, error) {
 		return nil, err
 	}
 	w := &World{}
+	// Directories are reported relative to the directory the run was started in — in every scenario the root of the
+	// (main) module, i.e. Module().Dir of its packages — also when the loader reports packages of other modules as local.
+	if abs, err := filepath.Abs(dir); err == nil {
+		if _, err := os.Stat(filepath.Join(abs, "go.mod")); err == nil {
+			w.ModRoot = abs
+		}
+	}
 	for path, direct := range u.LocalPkgPaths() {
 		p := u.Package(path)
-		if mod := p.Module(); mod != nil && w.ModRoot == "" {
-			w.ModRoot, w.ModPath, w.GoVer = mod.Dir, mod.Path, mod.GoVersion
+		if mod := p.Module(); mod != nil && (w.ModRoot == "" || w.ModPath == "") {
+			if w.ModRoot == "" {
+				w.ModRoot = mod.Dir
+			}
+			w.ModPath, w.GoVer = mod.Path, mod.GoVersion
 		}
 		wp := WPkg{Path: path, Direct: direct, Name: p.Pkg().Name(), Hash: u.SumFile().Sum(path)}
+		if mod := p.Module(); mod != nil {
+			wp.ModPath, wp.GoVer = mod.Path, mod.GoVersion
+		}
 		rel, err := filepath.Rel(w.ModRoot, p.SourceDir())
 		if err != nil {
 			return nil, err
@@ -947,8 +981,13 @@ func FmtTable(w *World, evs []Event) (string, map[string]string) {
 		bodies[k] += e.Body
 	}
 	names := map[string]string{}
+	mods := map[string][2]string{}
 	for _, p := range w.Pkgs {
 		names[p.Path] = p.Name
+		mods[p.Path] = [2]string{w.GoVer, w.ModPath}
+		if p.ModPath != "" {
+			mods[p.Path] = [2]string{p.GoVer, p.ModPath}
+		}
 	}
 	var items []string
 	expect := map[string]string{}
@@ -957,7 +996,7 @@ func FmtTable(w *World, evs []Event) (string, map[string]string) {
 			continue
 		}
 		src := Assemble(names[k[0]], k[1], bodies[k])
-		out, ok := RefFormat(src, w.GoVer, w.ModPath)
+		out, ok := RefFormat(src, mods[k[0]][0], mods[k[0]][1])
 		items = append(items, "("+core.Hex(src)+", "+core.CoqOpt(ok, core.Hex(out))+")")
 		if ok {
 			expect[k[0]+" "+k[1]] = out
